@@ -3,6 +3,7 @@ import FunsorVerif.Core.Sexp
 import FunsorVerif.Core.XR
 import FunsorVerif.Model.C15
 import FunsorVerif.Model.C15.Mag
+import FunsorVerif.Model.C15Transform
 import FunsorVerif.Gen.C15OpTables
 namespace FV.Drv.C15
 open FV FV.C15
@@ -75,8 +76,27 @@ def pairsSexp (t : List (Op × Op)) : String :=
   C15 table NAME                         the generated table, as op-name pairs
   C15 inok cx cy ord                     is the abstract input consistent?
 -/
+def parseT : String → Option Transform.T
+  | "exp" => some .exp | "log" => some .log | "tanh" => some .tanh | "atanh" => some .atanh
+  | "sigmoid" => some .sigmoid | "sigmoid_inv" => some .sigmoidInv | _ => none
+
+def showT : Transform.T → String
+  | .exp => "exp" | .log => "log" | .tanh => "tanh" | .atanh => "atanh"
+  | .sigmoid => "sigmoid" | .sigmoidInv => "sigmoid_inv"
+
 def handle (args : List Sexp) : String :=
   match args with
+  | [Sexp.atom "xform", Sexp.atom kind, Sexp.atom t, bx, by_] =>
+    -- operands and result travel as IEEE-754 bit patterns
+    match parseT t, bx.asNat?, by_.asNat? with
+    | some t, some bx, some by_ =>
+      let e? := if kind == "body" then some t.body else if kind == "ladj" then Transform.ladj t else none
+      match e? with
+      | some e => "ok " ++ toString (Transform.evalF (Float.ofBits bx.toUInt64) (Float.ofBits by_.toUInt64) e).toBits.toNat
+      | none => "ok none"
+    | _, _, _ => "err bad-args"
+  | [Sexp.atom "xforminv"] =>
+    "ok (" ++ " ".intercalate (Transform.invTable.map fun (a, b) => "(" ++ showT a ++ " " ++ showT b ++ ")") ++ ")"
   | [Sexp.atom "prim", Sexp.atom nm, a] =>
     match prim1 nm, parseCls a with
     | some f, some c => "ok " ++ showCS (norm (f c))
